@@ -133,6 +133,13 @@ impl<'a> PrettyPrinter<'a> {
     }
 
     fn convert_dot_chain(&'a self, ctx: Context, node: &'a SyntaxNode) -> ArenaDoc<'a> {
+        // The innermost node of the chain is the target of a field access (`1. .f`),
+        // unless it is the callee of a call (`1.(a).f`).
+        let field_target = {
+            let mut chain = resolve_dot_chain(node).collect_vec();
+            let innermost = chain.pop();
+            innermost.filter(|_| chain.last().is_some_and(|it| it.kind() == SyntaxKind::FieldAccess))
+        };
         ChainStylist::new(self)
             .process_resolved(
                 ctx,
@@ -151,7 +158,13 @@ impl<'a> PrettyPrinter<'a> {
                         // There is no comment allowed, so we can directly convert args.
                         Some(self.convert_args(ctx, func_call.args()))
                     } else {
-                        node.cast().map(|expr| self.convert_field_target(ctx, expr))
+                        node.cast().map(|expr| {
+                            if field_target.is_some_and(|it| std::ptr::eq(it, node)) {
+                                self.convert_field_target(ctx, expr)
+                            } else {
+                                self.convert_expr(ctx, expr)
+                            }
+                        })
                     }
                 },
             )
